@@ -139,6 +139,12 @@ def unmark : List Marked → Option (List Pair)
   | (none, _) :: _ => none                       -- a nullptr name inside the reply
   | (some n, b) :: rest => (unmark rest).map ((n, b) :: ·)
 
+/-- `if(reply_with_query) { types[pos] = 's'; args[pos++].s = str; types[pos] = 's'; args[pos++].s = needle; }` -/
+def queryArgs (query : Bool) (str needle : Bytes) : List Arg :=
+  if query then [.s str, .s needle] else []
+
+def queryTypes (query : Bool) : Bytes := if query then [115, 115] else []
+
 /-- the table whose rows are offered to `fn`: the root, the sub-table of the port
     found by `apropos`, or that port alone -/
 def searchRows (root : List PortT) (str : Bytes) : Except Found (List PortT) :=
@@ -158,8 +164,8 @@ def pathSearch (S : Sorter) (root : List PortT) (str : Bytes) (needle : Option B
     (maxTypes maxArgs : Nat) (opts : Opts) (query : Bool) : Found :=
   let needle := needle.getD []
   let max := min (maxTypes - 1) maxArgs
-  let q : List Arg := if query then [.s str, .s needle] else []
-  let qt : Bytes := if query then [115, 115] else []
+  let q : List Arg := queryArgs query str needle
+  let qt : Bytes := queryTypes query
   match searchRows root str with
   | .error e => e
   | .ok rows =>
@@ -246,6 +252,14 @@ def Blob.bytes (b : Blob) : Bytes :=
   | none => List.replicate b.len 0
   | some d => d.take b.len
 
+/-- a found port as the reader of the reply sees it: name and blob contents -/
+def Pair.view (e : Pair) : Bytes × Bytes := (e.1, e.2.bytes)
+
+/-- an argument as the reader of the reply sees it -/
+def Arg.view : Arg → Bytes ⊕ Bytes
+  | .s v => .inl v
+  | .b blob => .inr blob.bytes
+
 /-- the metadata bytes the statement pairs a child with: the whole block, or nothing
     when the port has no metadata (NULL or empty string) -/
 def metaBytes (p : PortT) : Bytes :=
@@ -258,6 +272,21 @@ def metaBytes (p : PortT) : Bytes :=
     each with its metadata bytes, in table order -/
 def childrenSpec (rows : List PortT) (needle : Bytes) : List (Bytes × Bytes) :=
   (rows.filter fun p => needle.isPrefixOf p.name).map fun p => (p.name, metaBytes p)
+
+/-- a non-empty metadata block as the rtosc macros write it: scanning from the left with
+    the previous byte `prev`, the first NUL that directly follows a NUL is the last byte
+    of the block -/
+def EndsAtDoubleNul : UInt8 → Bytes → Prop
+  | _, [] => False
+  | prev, c :: r => if prev = 0 ∧ c = 0 then r = [] else EndsAtDoubleNul c r
+
+/-- metadata the statement quantifies over: NULL, the empty string, or a block that
+    starts with a non-NUL byte and ends with its first double NUL -/
+def MetaOK (p : PortT) : Prop :=
+  match p.metadata with
+  | none => True
+  | some [] => False
+  | some (c :: r) => c = 0 ∨ EndsAtDoubleNul 0 (c :: r)
 
 /-- a name lies below a returned `name/` entry -/
 def below (all : List Bytes) (e : Bytes) : Bool :=
